@@ -68,8 +68,8 @@ def run_unit(unit_name, tier, seed, only_props=None):
             result["error"] = "native enumeration timed out"
             out = ""
         lines = {}
-        for m in re.finditer(r"NATIVE (\S+) (OK|FAIL) cases=(\d+)(?: first=(.*))?", out):
-            lines[m.group(1)] = (m.group(2), int(m.group(3)), m.group(4) or "")
+        for m in re.finditer(r"NATIVE (\S+) (OK|FAIL) cases=(\d+)(?: nontrivial=(\d+))?(?: first=(.*))?", out):
+            lines[m.group(1)] = (m.group(2), int(m.group(3)), m.group(5) or "", int(m.group(4)) if m.group(4) else None)
         if not lines and not result["error"]:
             errs = re.findall(r"^error.*(?:\n.*){0,8}", out, re.M)
             result["error"] = "native stage produced no result (does the overlay still compile against /repo?): " + "\n".join(errs[:2])[:900]
@@ -80,7 +80,12 @@ def run_unit(unit_name, tier, seed, only_props=None):
             if got is None:
                 e.update({"status": "undecided", "reason": result["error"] or "no result line (test panicked before reporting?)",
                           "n_checks": 0, "solver_s": None, "failed_checks": []})
+            elif got[0] == "OK" and (got[1] == 0 or got[3] == 0):
+                # vacuity guard: nothing enumerated, or the function under test never did anything
+                e.update({"status": "undecided", "reason": "vacuous: %d cases, %s non-trivial" % (got[1], got[3]),
+                          "n_checks": got[1], "solver_s": None, "failed_checks": []})
             elif got[0] == "OK":
+                e["nontrivial_cases"] = got[3]
                 e.update({"status": "discharged", "reason": "", "n_checks": got[1], "solver_s": None, "failed_checks": []})
             else:
                 e.update({"status": "failed", "reason": "contract violated on enumerated input: " + got[2][:400],
@@ -97,5 +102,5 @@ if __name__ == "__main__":
     r = run_unit(sys.argv[1], sys.argv[2] if len(sys.argv) > 2 else "quick", 0)
     print(r["error"])
     for h in r["harnesses"]:
-        print(h["status"], h["id"], h["n_checks"], h["reason"][:300])
+        print(h["status"], h["id"], h["n_checks"], h.get("nontrivial_cases"), h["reason"][:300])
     print(r["wall_s"])
